@@ -139,13 +139,17 @@ func callerFn(skip int) (string, string) {
 }
 
 func (s *Sched) access(ptr unsafe.Pointer, loc string, write bool) {
+	s.accessAt(ptr, loc, write, 4)
+}
+
+func (s *Sched) accessAt(ptr unsafe.Pointer, loc string, write bool, skip int) {
 	addr := uintptr(ptr)
 	r := s.races
 	t := s.cur
 	if r == nil || t == nil || s.aborting {
 		return
 	}
-	fn, site := callerFn(3)
+	fn, site := callerFn(skip)
 	ls := r.locs[addr]
 	if ls == nil {
 		ls = &locState{keep: ptr}
@@ -219,4 +223,51 @@ func Races() []Race {
 	}
 	sort.Slice(out, func(i, j int) bool { return out[i].Key() < out[j].Key() })
 	return out
+}
+
+// maxElems bounds the number of elements logged per slice operation (an under-approximation for longer
+// slices: payload byte slices are not scanned in full).
+const maxElems = 32
+
+func logElems[S ~[]E, E any](s S, from, to int, loc string, write bool) {
+	sc := cur
+	if sc == nil || sc.races == nil {
+		return
+	}
+	var z E
+	if unsafe.Sizeof(z) == 0 {
+		return
+	}
+	if to-from > maxElems {
+		to = from + maxElems
+	}
+	for i := from; i < to; i++ {
+		sc.accessAt(unsafe.Pointer(&s[i]), loc, write, 4)
+	}
+}
+
+// RdElems logs a read of the elements of s (range loops, reading library calls) and returns s.
+func RdElems[S ~[]E, E any](s S, loc string) S { logElems(s, 0, len(s), loc, false); return s }
+
+// WrElems logs a write of the elements of s (in-place sorts and the like) and returns s.
+func WrElems[S ~[]E, E any](s S, loc string) S { logElems(s, 0, len(s), loc, true); return s }
+
+// WrElemsN logs a write of the first n elements of s (copy) and returns s.
+func WrElemsN[S ~[]E, E any](s S, n int, loc string) S {
+	if n > len(s) {
+		n = len(s)
+	}
+	logElems(s, 0, n, loc, true)
+	return s
+}
+
+// AppElems logs what append(s, n more elements) does to the backing array of s: writes behind len(s) while
+// the capacity suffices, else a read of all elements (they are copied).
+func AppElems[S ~[]E, E any](s S, n int, loc string) S {
+	if len(s)+n <= cap(s) {
+		logElems(s[:len(s)+n], len(s), len(s)+n, loc, true)
+	} else {
+		logElems(s, 0, len(s), loc, false)
+	}
+	return s
 }
